@@ -3,6 +3,8 @@ import GdcVerif.Lemmas.Dct
 import GdcVerif.Lemmas.DctDqt
 import GdcVerif.Lemmas.DctDetect
 import GdcVerif.Lemmas.DctHuff
+import GdcVerif.Lemmas.DctColour
+import GdcVerif.Lemmas.DctPass
 import GdcVerif.Spec.T81ZigZag
 /-!
   C11 — JPEG DCT codecs (Baseline / Extended): loss bounded by the declared quantisation.  PARTIAL.
@@ -21,6 +23,10 @@ import GdcVerif.Spec.T81ZigZag
   * detectBitDepth (fix 12cadee) skips segment payloads: the 12-bit decoder is selected for every stream whose
     first frame header declares precision 12, whatever bytes DQT/APPn payloads contain (old witness kept).
   * Huffman category coding of coefficients (EncodeCategory / ReceiveExtend) round-trips for every value.
+  * colour matrices (generated rgbToYCbCr loop body, ycbcrToRGB): outputs in 0..255, the clamp is needed (Cb, Cr reach
+    256) and makes byte() faithful, round trip within 2 per channel for every RGB triple.
+  * fixed-point DCT pair: per-pass linear-form-plus-one-rounding bounds for the four generated passes, consistency of
+    the forward/inverse constant matrices to 5.9e-5.
   NOT proved: that the fixed-point DCT pair (`DCTISlow`/`IDCTISlow`, generated 1-D passes + hand 2-D glue) and the
   12-bit float IDCT are within the 2-grey-level allowance of the ideal transform — the DCT accuracy analysis
   is missing.  `c11_bound_FullStatement` is therefore a `def`; it is searched (harness, and `jpg-blockbound`
@@ -66,8 +72,8 @@ theorem c11_unzig_inverse : ∃ u, unzigInit = some u ∧ u.size = 64 ∧
 
 /-- (3) quantiser contract, 8-bit path (generated loop body of Encoder.quantizeBlock): with divisor d = 8·Q,
     Q ≥ 1, the quantised coefficient k satisfies |c − d·k| ≤ d/2 — for every coefficient c -/
-theorem c11_quantiser_8bit (bx bY s t i q c : Int) (hq : 1 ≤ q) :
-    let k := quantizeBlock.entry bx bY s t i q c
+theorem c11_quantiser_8bit (enc : Encoder) (bx bY s t i q c : Int) (hq : 1 ≤ q) :
+    let k := quantizeBlock.entry enc bx bY s t i q c
     2 * (c - (q * 8) * k) ≤ q * 8 ∧ -(q * 8) ≤ 2 * (c - (q * 8) * k) := by
   intro k; simp only [k, quant8_is_symQuant]; exact symQuant_bound c (q * 8) (by omega)
 /-- (3') 12-bit path: `sequential12Quantize` (generated) for every divisor d ≥ 1 -/
@@ -79,7 +85,7 @@ theorem c11_quantiser_12bit_entry (bx bY i c q r : Int) (hq : 1 ≤ q) :
     let k := quantizeBlock12.entry bx bY i c q r
     2 * (c - (q * 8) * k) ≤ q * 8 ∧ -(q * 8) ≤ 2 * (c - (q * 8) * k) := by
   intro k; simp only [k, quant12_entry]; exact symQuant_bound c (q * 8) (by omega)
-example : quantizeBlock.entry 0 0 0 0 0 3 (-37) = -2 ∧ sequential12Quantize 12 24 = 1 ∧ sequential12Quantize 11 24 = 0 := by decide
+example : quantizeBlock.entry default 0 0 0 0 0 3 (-37) = -2 ∧ sequential12Quantize 12 24 = 1 ∧ sequential12Quantize 11 24 = 0 := by decide
 
 /-- (4) edge replication index -/
 theorem c11_edge_index (b x w : Int) (hb : 0 ≤ b) (hx : 0 ≤ x) (hw : 1 ≤ w) :
@@ -136,9 +142,73 @@ theorem c11_category_roundtrip (v : Int) (hv : v ≠ 0) (hb : v.natAbs < 2 ^ 62)
 example : encodeCategory (-37) = (6, 26) ∧ extend 6 26 = -37 ∧ encodeCategory 1023 = (10, 1023) ∧ encodeCategory 0 = (0, 0) := by
   decide
 
+/-- (8) RGB→YCbCr (GENERATED loop body of Encoder.rgbToYCbCr): for 8-bit r, g, b the three stored bytes are in 0..255
+    and equal the clamp of the fixed-point values; the unclamped values range over Y 0..255, Cb 1..256, Cr 1..256 -/
+theorem c11_colour_forward_range (enc : Encoder) (row col sr st a1 a2 a3 r g b : Int)
+    (hr : 0 ≤ r ∧ r ≤ 255) (hg : 0 ≤ g ∧ g ≤ 255) (hb : 0 ≤ b ∧ b ≤ 255) :
+    rgbToYCbCr.entry enc row col sr st r g b a1 a2 a3 =
+      (fwdY r g b, min 255 (fwdCb r g b), min 255 (fwdCr r g b)) ∧
+    0 ≤ fwdY r g b ∧ fwdY r g b ≤ 255 ∧ 1 ≤ fwdCb r g b ∧ fwdCb r g b ≤ 256 ∧ 1 ≤ fwdCr r g b ∧ fwdCr r g b ≤ 256 := by
+  have h := fwd_ranges r g b hr hg hb
+  refine ⟨?_, h⟩
+  rw [fwd_entry_eq, (clamp_byte _).2.2, (clamp_byte _).2.2, (clamp_byte _).2.2]
+  congr 1
+  · omega
+  · congr 1 <;> omega
+/-- (8') the clamp is NEEDED: pure blue gives Cb = 256 and pure red gives Cr = 256 before clamping, which `byte()` alone
+    would wrap to 0 (a full-range chroma error); with the clamp the stored byte is 255 -/
+theorem c11_colour_clamp_needed :
+    fwdCb 0 0 255 = 256 ∧ fwdCr 255 0 0 = 256 ∧ Go.uwrap8 256 = 0 ∧
+    Go.uwrap8 (Gen.JpegStd.Clamp (fwdCb 0 0 255) 0 255) = 255 ∧ Go.uwrap8 (Gen.JpegStd.Clamp (fwdCr 255 0 0) 0 255) = 255 := by decide
+/-- (8'') round trip through the two GENERATED fixed-point matrices (rgbToYCbCr loop body, ycbcrToRGB): every channel of
+    every 8-bit RGB triple comes back within 2 (the bound is attained, e.g. (2,0,68)) -/
+theorem c11_colour_roundtrip (enc : Encoder) (row col sr st a1 a2 a3 r g b : Int)
+    (hr : 0 ≤ r ∧ r ≤ 255) (hg : 0 ≤ g ∧ g ≤ 255) (hb : 0 ≤ b ∧ b ≤ 255) :
+    let f := rgbToYCbCr.entry enc row col sr st r g b a1 a2 a3
+    let i := ycbcrToRGB f.1 f.2.fst f.2.snd
+    (-2 : Int) ≤ i.1 - r ∧ i.1 - r ≤ 2 ∧ -2 ≤ i.2.fst - g ∧ i.2.fst - g ≤ 2 ∧ -2 ≤ i.2.snd - b ∧ i.2.snd - b ≤ 2 :=
+  colour_roundtrip enc row col sr st a1 a2 a3 r g b hr hg hb
+example : let e : Encoder := { width := 1, height := 1, components := 3, quality := 90 }
+    rgbToYCbCr.entry e 0 0 0 8 0 0 255 0 0 0 = (29, 255, 107) ∧ ycbcrToRGB 29 255 107 = (0, 1, 254) ∧
+    rgbToYCbCr.entry e 0 0 0 8 2 0 68 0 0 0 = (8, 162, 123) ∧ ycbcrToRGB 8 162 123 = (0, 0, 68) := by decide
+
+/-- (9) fixed-point DCT pair, per-pass analysis (GENERATED 1-D passes of DCTISlow/IDCTISlow).  Every pass is an integer
+    linear form of its inputs with literal 13-bit-constant coefficients followed by one rounding `descale`:
+    |2^s·out − form| ≤ 2^(s−1) for ALL inputs — forward rows (s = 11; outputs 0 and 4 exact), forward columns
+    (s = 15; outputs 0, 4: s = 2), inverse columns incl. dequantisation (s = 11), inverse rows (s = 18, then +128, clamp,
+    byte).  The four statements with their coefficient rows are `fdct_row_pass`, `fdct_col_pass`, `idct_col_pass`,
+    `idct_row_pass` in Lemmas/DctPass.lean; this theorem packages the forward row pass as the representative. -/
+theorem c11_dct_row_pass_bound (y d0 d1 d2 d3 d4 d5 d6 d7 : Int) :
+    let r := DCTISlow.row 8 y d0 d7 d1 d6 d2 d5 d3 d4
+    r.1 = 4 * (d0 + d1 + d2 + d3 + d4 + d5 + d6 + d7) ∧
+    (-1024 ≤ 2048 * r.2.snd.fst - (10703 * d0 + 4433 * d1 - 4433 * d2 - 10703 * d3 - 10703 * d4 - 4433 * d5 + 4433 * d6 + 10703 * d7) ∧
+      2048 * r.2.snd.fst - (10703 * d0 + 4433 * d1 - 4433 * d2 - 10703 * d3 - 10703 * d4 - 4433 * d5 + 4433 * d6 + 10703 * d7) ≤ 1024) := by
+  have h := fdct_row_pass y d0 d1 d2 d3 d4 d5 d6 d7
+  intro r
+  refine ⟨by have := h.1; simp only [r] at this ⊢; omega, ?_⟩
+  have := h.2.2.1
+  simp only [r] at this ⊢
+  omega
+/-- (9') the forward and inverse 13-bit constant matrices (the coefficient rows of the pass theorems) are mutually
+    consistent: invMatrix·fwdMatrix = 2^29·I + E with |E_ij| ≤ 31601, i.e. relative 5.9e-5 -/
+theorem c11_dct_constants_consistent :
+    ((matMul invMatrix fwdMatrix).zipIdx.all fun (row, i) => row.zipIdx.all fun (v, j) =>
+      let e := v - (if i = j then 536870912 else 0)
+      decide (-31601 ≤ e ∧ e ≤ 31601)) = true := dct_matrices_consistent
+
 /-- The full per-block statement over the model (generated 1-D DCT passes + 2-D glue + generated quantiser):
     every sample of the reconstructed block is within (1/8)·Σ C(u)C(v)·Q[u,v] + 2 of the source sample.
-    NOT proved — the accuracy analysis of the fixed-point DCT pair is missing.  Evaluated by search only. -/
+    NOT proved.  Available: the four per-pass bounds and the consistency of the constant matrices ((9), (9')), the
+    quantiser contract (3).  MISSING, exactly:
+    (M1) the 2-D combination lemma — propagate the four roundings (≤ 1/2 unit each at scales 2^-11·4, 2^-15, 2^-11,
+         2^-18) and the quantisation residual e (|e_uv| ≤ 4·Q_uv in 8×-scaled units) through the composite linear map
+         invMatrix⊗invMatrix ∘ diag ∘ fwdMatrix⊗fwdMatrix, using (9') for the identity part and the absolute row sums
+         of invMatrix for the error part, for all 64-sample blocks with entries in −128..127;
+    (M2) the comparison of |invMatrix[x][u]|·|invMatrix[y][v]| / 2^26 with the property's weights C(u)C(v)/4·|cos·cos|
+         ≤ C(u)C(v)/4 — core Lean has no real numbers, so C(0) = 1/√2 has to be handled by squaring as in
+         `withinBound`; the entries involved are the literals of `invMatrix`;
+    (M3) clamping to 0..255 only moves a sample towards the (in-range) source value.
+    Evaluated by search only (harness on the real code; `jpg-blockbound` on model and real kernels). -/
 def c11_bound_FullStatement : Prop :=
   ∀ (blk : Array Int) (base : Array Int) (quality : Int), blk.size = 64 → (∀ b ∈ blk.toList, 0 ≤ b ∧ b ≤ 255) →
     (base = DefaultLuminanceQuantTable ∨ base = DefaultChrominanceQuantTable) → 1 ≤ quality ∧ quality ≤ 100 →
@@ -152,12 +222,12 @@ def c11_bound_FullStatement : Prop :=
 theorem c11_bound_partial (base : Array Int) (quality : Int) (c : Int) (i : Nat) (hi : i < base.size) :
     let q := scaleQuantTable base quality
     ∃ h : i < q.size, 1 ≤ q[i] ∧ q[i] ≤ 255 ∧
-      2 * (c - (q[i] * 8) * quantizeBlock.entry 0 0 0 0 i q[i] c) ≤ q[i] * 8 ∧
-      -(q[i] * 8) ≤ 2 * (c - (q[i] * 8) * quantizeBlock.entry 0 0 0 0 i q[i] c) := by
+      2 * (c - (q[i] * 8) * quantizeBlock.entry default 0 0 0 0 i q[i] c) ≤ q[i] * 8 ∧
+      -(q[i] * 8) ≤ 2 * (c - (q[i] * 8) * quantizeBlock.entry default 0 0 0 0 i q[i] c) := by
   intro q
   have hs : i < q.size := by simp [q, scaleQuantTable, hi]
   have hr : 1 ≤ q[i] ∧ q[i] ≤ 255 := (c11_scaled_table_valid base quality).2 _ (Array.getElem_mem_toList hs)
-  exact ⟨hs, hr.1, hr.2, c11_quantiser_8bit 0 0 0 0 i q[i] c hr.1⟩
+  exact ⟨hs, hr.1, hr.2, c11_quantiser_8bit default 0 0 0 0 i q[i] c hr.1⟩
 example : (12 : Nat) < DefaultLuminanceQuantTable.size ∧ (scaleQuantTable DefaultLuminanceQuantTable 75)[12]? = some 13 := by decide
 
 end Dct
